@@ -310,6 +310,26 @@ pub fn fcp_terminates<S: Src>(s: &mut S) {
     crate::cover!(s, cur > (1u64 << 63), "close to the end of the domain");
 }
 
+/// near the top of the domain (steps beyond 2^63): next() must neither overflow nor loop, and may only
+/// return a real change point (or None: beyond 2^63 change points may be missed)
+pub fn fcp_high<S: Src, const BASE: u64>(s: &mut S) {
+    let d = s.u64();
+    let c = s.u64();
+    let v0 = s.usize();
+    let v1 = s.usize();
+    s.assume(v0 < v1 && v1 < usize::MAX);
+    s.assume(c < 1024 && d >= 1 && d < 64);
+    let cur = BASE + c;
+    s.assume(cur < u64::MAX - 64);
+    let b1 = cur + d;
+    let f = move |x: u64| if x < b1 { v0 } else { v1 };
+    let mut it = FindChangePoints::verif_from_parts(f, cur, v0);
+    let r = it.next();
+    assert!(r.is_none() || r == Some((b1, v1)), "next() returned something that is not the next change point");
+    assert!(r.is_some() || b1 > (1u64 << 63) || u64::MAX - cur <= 64, "a change point below 2^63 was missed");
+    crate::cover!(s, r.is_some(), "change point found");
+}
+
 crate::harnesses! {
     c20_mono_gamma (quick, "len_gamma", "n<=2^64-3") => monotone::<_, {C_GAMMA}, 0, 0, 64>;
     c20_mono_delta (quick, "len_delta", "n<=2^64-3") => monotone::<_, {C_DELTA}, 0, 0, 64>;
@@ -410,4 +430,10 @@ crate::harnesses! {
     c20_fcp_exact_8_cur0 (quick, "FindChangePoints::next from the state after the first item", "symbolic step function, current = 0, first change point < 2^8") => fcp_exact::<_, 8, 0>;
     #[kani::unwind(12)]
     c20_fcp_exact_8_cur16 (thorough, "FindChangePoints::next from an arbitrary state", "symbolic step function, current < 2^16, gap < 2^8") => fcp_exact::<_, 8, 16>;
+    #[kani::unwind(10)]
+    c20_fcp_high_62 (quick, "FindChangePoints::next from a state just above 2^62", "current = 2^62 + c, c < 1024; one change point at distance < 64: found, no overflow") => fcp_high::<_, {1u64 << 62}>;
+    #[kani::unwind(10)]
+    c20_fcp_high_63 (quick, "FindChangePoints::next from a state around 2^63", "current = 2^63 - 512 + c, c < 1024; one change point at distance < 64: no overflow, no invented point") => fcp_high::<_, {(1u64 << 63) - 512}>;
+    #[kani::unwind(10)]
+    c20_fcp_high_64 (quick, "FindChangePoints::next from a state next to 2^64", "current = 2^64 - 2048 + c, c < 1024; one change point at distance < 64: no overflow, no invented point") => fcp_high::<_, {u64::MAX - 2047}>;
 }
